@@ -289,8 +289,11 @@ def run_chunk(run, leg, widx, frm, count, deadline):
                     verdict = ('deadlock', 'every thread blocked without a timeout, no CPU consumed, 6 consecutive samples'); break
             else:
                 if now - last_cpu_change <= 3.0: blocked_samples = 0
-            if now - case_wall0 > leg.stall_wall * (40 if leg.valgrind else 1) or now > deadline:
-                verdict = ('watchdog', 'wall-clock watchdog (%.0fs on one case or run deadline)' % leg.stall_wall); break
+            # per-case wall watchdog: only for a case that is *stalled* (hardly any CPU consumed over the window); a case that is merely slow
+            # because the machine is oversubscribed keeps running and is bounded by the CPU budget above and by the run deadline
+            case_wall = now - case_wall0
+            if now > deadline or (case_wall > leg.stall_wall * (40 if leg.valgrind else 1) and (cpu - case_cpu0) < 0.05 * case_wall):
+                verdict = ('watchdog', 'wall-clock watchdog (%.0fs on one case with <5%% CPU, or run deadline)' % leg.stall_wall); break
         if verdict is not None:
             stacks = ''
             if verdict[0] in ('deadlock', 'cpu-budget'):
